@@ -64,6 +64,7 @@ class InitMethod(MethodDescriptor):
                         if (
                             instance_attr_spec.owner is not parent
                             or not instance_attr_spec.init
+                            or attr == instance_metadata.init_overflow_attr
                         ):
                             continue
                         if attr in kwargs:
